@@ -1,6 +1,6 @@
 (* C19 property theorems: statements only; every proof is [exact lemma]. *)
 From Coq Require Import List NArith Bool.
-From Gv Require Import lib.Bytes C19.Model C19.Spec C19.Causes C19.ProofsBase C19.Proofs gen.Anchors_C19.
+From Gv Require Import lib.Bytes C19.Model C19.ModelV0 C19.Spec C19.Causes C19.ProofsBase C19.Proofs gen.Anchors_C19.
 Import ListNotations.
 Open Scope N_scope.
 
@@ -21,7 +21,9 @@ Theorem c19_anchors :
 Proof. exact anchors_ok. Qed.
 Print Assumptions c19_anchors.
 
-(* full strength -- every trace of either protocol is accepted -- is FALSE of the faithful model *)
+(* full strength -- every trace of either protocol is accepted -- is FALSE of the faithful model of
+   the current code: one cause is left (an Execute error of a subscription sends "error" but the
+   subscription runs on and keeps its id) *)
 Theorem c19_tws_trace_accepted_refuted : ~ trace_accepted TWS.
 Proof. exact (trace_accepted_refuted_proof TWS). Qed.
 Print Assumptions c19_tws_trace_accepted_refuted.
@@ -30,15 +32,14 @@ Theorem c19_gws_trace_accepted_refuted : ~ trace_accepted GWS.
 Proof. exact (trace_accepted_refuted_proof GWS). Qed.
 Print Assumptions c19_gws_trace_accepted_refuted.
 
-(* ... and each of the three causes refutes it on its own, under either protocol *)
-Theorem c19_each_cause_refutes : forall (pr : proto) (k : cause),
-  exists ins, causes_of pr ins = [k] /\ monitor_accepts pr ins (run_outs pr ins) = false.
-Proof. exact each_cause_refutes_proof. Qed.
-Print Assumptions c19_each_cause_refutes.
+Theorem c19_sub_error_refutes : forall pr : proto,
+  exists ins, causes_of pr ins = [KSubErrorGoesOn] /\ monitor_accepts pr ins (run_outs pr ins) = false.
+Proof. exact sub_error_refutes_proof. Qed.
+Print Assumptions c19_sub_error_refutes.
 
 (* strongest true variant: for ALL input sequences (client messages and environment events, any
-   length, any interleaving) in which no step is an instance of one of the three causes, the
-   monitor accepts the server's output trace *)
+   length, any interleaving) in which no step is an instance of that cause (Causes.offending: Execute
+   of a running subscription returns an error), the monitor accepts the server's output trace *)
 Theorem c19_tws_trace_accepted_partial : forall ins : list input,
   causes_of TWS ins = [] -> monitor_accepts TWS ins (run_outs TWS ins) = true.
 Proof. exact (trace_accepted_partial_proof TWS). Qed.
@@ -48,6 +49,24 @@ Theorem c19_gws_trace_accepted_partial : forall ins : list input,
   causes_of GWS ins = [] -> monitor_accepts GWS ins (run_outs GWS ins) = true.
 Proof. exact (trace_accepted_partial_proof GWS). Qed.
 Print Assumptions c19_gws_trace_accepted_partial.
+
+(* historical (code as found, ModelV0.v): each of the three causes -- complete for an id that is
+   not running, emitting after the context was cancelled, the subscription error -- refuted the
+   full statement on its own under either protocol; the first two are repaired (fix 1, fix 2) and
+   their witnesses are accepted on the current code *)
+Theorem c19_each_cause_refuted_v0 : forall (pr : proto) (k : cause),
+  exists ins, causes_of_v0 pr ins = [k] /\ monitor_accepts pr ins (run_outs_v0 pr ins) = false.
+Proof. exact each_cause_refuted_v0_proof. Qed.
+Print Assumptions c19_each_cause_refuted_v0.
+
+Theorem c19_repaired_witnesses_accepted :
+  monitor_accepts TWS w_tws_stop_unknown (run_outs TWS w_tws_stop_unknown) = true
+  /\ monitor_accepts TWS w_tws_stop_before_init (run_outs TWS w_tws_stop_before_init) = true
+  /\ monitor_accepts TWS w_tws_emit_after_cancel (run_outs TWS w_tws_emit_after_cancel) = true
+  /\ monitor_accepts GWS w_gws_stop_unknown (run_outs GWS w_gws_stop_unknown) = true
+  /\ monitor_accepts GWS w_gws_emit_after_cancel (run_outs GWS w_gws_emit_after_cancel) = true.
+Proof. exact repaired_witnesses_accepted. Qed.
+Print Assumptions c19_repaired_witnesses_accepted.
 
 (* clauses that hold at full strength, for every input sequence *)
 Theorem c19_nothing_after_close : forall (pr : proto) (ins : list input) (inp : input),
